@@ -23,13 +23,13 @@ impl<'buf, IO: Io> Connection<'_, 'buf, IO> {
         if !self.live {
             return Ok(());
         }
+        if let Some(properties) = disconnect.properties()
+            && !properties.valid_for(PropertyContext::Disconnect)
+        {
+            return Err(Error::InvalidRequest);
+        }
         if self.session.runtime.closing.is_none() {
             info!("Graceful disconnect requested");
-            if let Some(properties) = disconnect.properties()
-                && !properties.valid_for(PropertyContext::Disconnect)
-            {
-                return Err(Error::InvalidRequest);
-            }
             // A cancelled operation may have left a packet partially written: the DISCONNECT must
             // not land inside it. The transport is finished once a disconnect was requested, so a
             // failure here latches the handle like a failure while writing the DISCONNECT does.
